@@ -106,14 +106,30 @@ Objective(inst, sol) == 0 - Makespan(inst, Sem(inst, sol).ops)
 Pointless(inst, pre, a) == FALSE
 PadNeeded(inst) == TRUE            \* episodes of one batch finish at different steps
 
-\* C02 step bound: one step per operation plus one per wait.  Waiting at a machine of stage
-\* s >= 1 is only sensible while some job has not yet left the stages before s; the stages
-\* before the last one are left by all jobs before HPre (sum, over jobs and those stages, of
-\* the longest run time in the stage), and every time unit has (S-1)*m such decision points.
-MaxRunInStage(inst, j, st) == MaxSet({Dur(inst, j, k) : k \in (st * inst.m)..((st + 1) * inst.m - 1)})
-HPre(inst) == SumSeq([x \in 1..(inst.N * (inst.S - 1)) |->
-                 MaxRunInStage(inst, (x - 1) \div (inst.S - 1), (x - 1) % (inst.S - 1))])
-StepBound(inst) == inst.N * inst.S + (inst.S - 1) * inst.m * HPre(inst)
+\* C02 step bound: one step per operation plus one per wait.  Leaving a machine idle is
+\* only sensible while a job that is not there yet can still arrive, so:
+\*  - stage 0 never idles with an unstarted job: before the last start all m machines are busy,
+\*    hence last start <= (total - smallest longest-run-time) \div m, and (induction over the
+\*    stages) all jobs have left stage s by LatestDone(s);
+\*  - a decision point of stage s >= 1 exists only once some job has left stage s-1
+\*    (not before EarliestDone(s-1)) and idling there is over at LatestDone(s-1);
+\*  - every time unit has m decision points per stage.
+StageMachines(inst, st) == (st * inst.m)..((st + 1) * inst.m - 1)
+PMax(inst, j, st) == MaxSet({Dur(inst, j, k) : k \in StageMachines(inst, st)})
+PMin(inst, j, st) == 0 - MaxSet({0 - Dur(inst, j, k) : k \in StageMachines(inst, st)})
+RECURSIVE LatestDone(_, _)
+LatestDone(inst, st) ==
+  LET pm  == {<<j, PMax(inst, j, st)>> : j \in JobIds(inst)}
+      tot == SumSeq([x \in 1..inst.N |-> PMax(inst, x - 1, st)])
+      mx  == MaxSet({p[2] : p \in pm})
+      mn  == 0 - MaxSet({0 - p[2] : p \in pm})
+  IN (IF st = 0 THEN 0 ELSE LatestDone(inst, st - 1)) + (tot - mn) \div inst.m + mx
+EarliestDone(inst, st) ==
+  0 - MaxSet({0 - SumSeq([q \in 1..(st + 1) |-> PMin(inst, j, q - 1)]) : j \in JobIds(inst)})
+WaitBound(inst) ==
+  SumSeq([st \in 1..(inst.S - 1) |->
+            inst.m * Max(0, LatestDone(inst, st - 1) - EarliestDone(inst, st - 1))])
+StepBound(inst) == inst.N * inst.S + WaitBound(inst)
 
 \* --- the schedule TENSOR of the environment read as a set of operations ---
 \* sched[k+1][j+1] = start time of job j on machine k, a negative number = never started
@@ -125,9 +141,11 @@ NStarts(inst, pre) == Cardinality({i \in DOMAIN pre : pre[i] # WaitAct(inst)})
 
 \* C07 while the episode runs: the partial schedule shown to the policy respects all
 \* constraints and contains exactly one operation per start action taken so far
+\* (st.frozen: the harness could not complete the last step -- a C02 matter -- and logged the
+\* state before it)
 StepOK(inst, pre, st) ==
   LET ops == OpsOfTensor(inst, st.sched)
-  IN NoClash(inst, ops) /\ Cardinality(ops) = NStarts(inst, pre)
+  IN st.frozen \/ (NoClash(inst, ops) /\ Cardinality(ops) = NStarts(inst, pre))
 
 \* C07 at the end: the final schedule tensor is a valid complete schedule and the
 \* reported makespan (= -reward) is its latest completion time
@@ -207,6 +225,7 @@ RewardM(inst, s, hist) ==
   0 - MaxSet({s.sched[k][j] + Dur(inst, j, k) : <<j, k>> \in JobIds(inst) \X Machines(inst)})
 
 ConfState(inst, s, st) ==
+  /\ ~st.frozen
   /\ st.time = s.time /\ st.sub = s.sub
   /\ st.mach = MachIdx(inst, s.sub) /\ st.stage = StageIdx(inst, s.sub)
   /\ \A k \in Machines(inst) : st.mw[k + 1] = s.mw[k]
